@@ -150,7 +150,8 @@ inline std::vector<LineMut> gen_line_muts(Cat &C, const std::vector<std::string>
 				}
 				if (parse62(f, v) && f.find_first_not_of("0123456789ABCDEFGHIJKLMNOPQRSTUVWXYZabcdefghijklmnopqrstuvwxyz-") == std::string::npos && !(tag == "pub" && j <= 3)) {
 					std::string cls = vclass(C, v); role = tag + "." + cls;
-					if (tag == "crs" || tag == "crd") role = tag + (cls == "bit" ? ".b" : C.qr ? ".r" : ".r");
+					if (tag == "crs" && !C.qr) { cls = "scalar"; role = "crs.r"; }                    // masking exponent of a VTMF card secret
+					else if (tag == "crs") role = cls == "bit" ? "crs.b" : "crs.r";                     // Rabin-type root / parity bit of a QR card secret
 					std::vector<VMut> VM = value_muts(C, cls, v, full, ni_qr);
 					for (size_t i = 0; i < VM.size(); i++) {
 						if (!full && heavy(proto) && ((rot++) % 3) != 0) continue;      // quick: every third (field, mutation) pair, rotating
@@ -185,11 +186,13 @@ inline std::vector<PubMut> gen_pub_muts(Cat &C, const std::string &kind, mpz_src
 		if (full) { mpz_set_ui(t, 0); add("zero"); mpz_set_ui(t, 1); add("one"); mpz_neg(t, v); add("neg", false); mpz_add(t, v, C.m); add("+m", false); }
 	} else if (kind == "elem") {
 		mpz_mul(t, v, C.g); mpz_mod(t, t, C.p); add("other");
-		mpz_add(t, v, C.p); add("+p");
+		// v+p is the same element for every verifier computing mod p (a public input is not a transmitted value: the
+		// refusal clause of the property does not apply): executed and recorded, not judged
+		mpz_add(t, v, C.p); add("+p", false);
 		if (full) { mpz_neg(t, v); mpz_mod(t, t, C.p); add("nonmember"); mpz_set_ui(t, 0); add("zero"); mpz_set_ui(t, 1); add("one"); mpz_sub_ui(t, C.p, 1); add("p-1"); mpz_neg(t, v); add("neg"); }
 	} else if (kind == "exp") {
 		mpz_mul_ui(t, v, 3); mpz_add_ui(t, t, 7); mpz_mod(t, t, C.q); add("other");
-		mpz_add(t, v, C.q); add("+q");
+		mpz_add(t, v, C.q); add("+q", false);                                                       // same residue mod q: recorded, not judged
 		if (full) { mpz_set_ui(t, 0); add("zero"); mpz_neg(t, v); add("neg"); }
 	}
 	if (full && next) { mpz_set(t, next); add("swap-next"); }
